@@ -5,6 +5,7 @@ import (
 	"go/ast"
 	"go/token"
 	"go/types"
+	"strconv"
 	"strings"
 
 	"golang.org/x/tools/go/packages"
@@ -41,6 +42,25 @@ func seedEnv(d *dtEnum, fd *ast.FuncDecl) *dtPath {
 // canonical form whether the code calls the helper or spells the expression out.
 func enumerateFuncP(p *packages.Package, fd *ast.FuncDecl) ([]*dtPath, *dtEnum) {
 	d := newDTP(p, fd)
+	d.paths = nil
+	start := seedEnv(d, fd)
+	d.stmts(start, fd.Body.List, func(p *dtPath) { d.finish(p, "end") })
+	return d.paths, d
+}
+
+// enumerateFuncFollow is enumerateFuncP with every other function of the package followed, in statement
+// position and nested inside expressions alike, and the module's named string constants printed as their
+// value: the table of a function is then the same whether it computes a piece itself or asks a sibling.
+func enumerateFuncFollow(p *packages.Package, fd *ast.FuncDecl) ([]*dtPath, *dtEnum) {
+	d := newDTP(p, fd)
+	d.callInline = map[*types.Func]*ast.FuncDecl{}
+	for fn, g := range pkgFuncs(p) {
+		if g != fd {
+			d.callInline[fn] = g
+		}
+	}
+	d.hoistCalls = true
+	d.constStrings = true
 	d.paths = nil
 	start := seedEnv(d, fd)
 	d.stmts(start, fd.Body.List, func(p *dtPath) { d.finish(p, "end") })
@@ -98,7 +118,15 @@ func ruleR071(c *Ctx, r *Repo) {
 		return
 	}
 	c.Func(funcKey(cp, fd))
-	paths, d := enumerateFunc(cp.TypesInfo, fd)
+	// private helpers (a shared regex test, say) are followed, and a boolean result that is not a constant
+	// is a decision of its own, so the table is the same however the predicate is spelled
+	d := newDT(cp.TypesInfo)
+	d.callInline = pkgUnexported(cp)
+	d.hoistCalls = true
+	d.boolReturns = true
+	d.paths = nil
+	d.stmts(seedEnv(d, fd), fd.Body.List, func(p *dtPath) { d.finish(p, "end") })
+	paths := d.paths
 	if d.overflow {
 		c.Fail("R07.1", "ShouldGenerateInterface|path-explosion", r.Pos(fd.Pos()), "too many paths to enumerate")
 		return
@@ -108,10 +136,10 @@ func ruleR071(c *Ctx, r *Repo) {
 		exc = "*RECV.Config.ExcludeInterfaceRegex"
 	)
 	atomName := map[string]string{
-		"*RECV.Config.All":             "all",
-		"RECV.Interfaces[ARG1]#ok":     "listed",
-		inc + ` == ""`:                 "incEmpty",
-		exc + ` == ""`:                 "excEmpty",
+		"*RECV.Config.All":                               "all",
+		"RECV.Interfaces[ARG1]#ok":                       "listed",
+		inc + ` == ""`:                                   "incEmpty",
+		exc + ` == ""`:                                   "excEmpty",
 		"regexp.MatchString(" + inc + ", ARG1)#0":        "incMatch",
 		"regexp.MatchString(" + inc + ", ARG1)#1 == nil": "incNoErr",
 		"regexp.MatchString(" + exc + ", ARG1)#0":        "excMatch",
@@ -281,6 +309,8 @@ func ruleR072(c *Ctx, r *Repo) {
 		return
 	}
 	d := newDT(info)
+	d.callInline = pkgUnexported(ip) // the lookup and its tests may sit in a private helper
+	d.hoistCalls = true
 	start := d.envBefore(seedEnv(d, pp), pp.Body.List, rs)
 	if v, ok := rs.Value.(*ast.Ident); ok {
 		start.env[info.Defs[v]] = "NAME"
@@ -312,7 +342,9 @@ func ruleR072(c *Ctx, r *Repo) {
 		for _, n := range need {
 			v, ok := false, false
 			for _, a := range p.Atoms {
-				if stripRes(a.Expr) == n.atom {
+				e := stripRes(a.Expr)
+				// IsInterface asked of the named type is IsInterface of the object's type
+				if e == n.atom || n.what == "types.IsInterface holds" && e == "go/types.IsInterface("+obj+".Type().(*types.Named))" {
 					v, ok = a.Val, true
 				}
 			}
@@ -614,6 +646,55 @@ func ruleR075(c *Ctx, r *Repo, rule string) {
 				okDrop = false
 				why = "subPackages never collects a loaded package's path"
 			}
+			// or the list was filtered before the loop: X = slices.DeleteFunc(X, func(pkg) bool { .. }) with a
+			// predicate that holds for every package without Go files
+			if !okDrop && appends > 0 {
+				if xid, ok := ast.Unparen(rs.X).(*ast.Ident); ok {
+					for _, g := range withCallees(cp, fd) {
+						ast.Inspect(g.Body, func(n ast.Node) bool {
+							as, ok := n.(*ast.AssignStmt)
+							if !ok || len(as.Lhs) != 1 || len(as.Rhs) != 1 || as.Pos() > rs.Pos() || !isObj(info, as.Lhs[0], info.Uses[xid]) {
+								return true
+							}
+							call, ok := ast.Unparen(as.Rhs[0]).(*ast.CallExpr)
+							if !ok || calleeName(info, call) != "slices.DeleteFunc" || len(call.Args) != 2 || !isObj(info, call.Args[0], info.Uses[xid]) {
+								return true
+							}
+							fl, ok := call.Args[1].(*ast.FuncLit)
+							if !ok || fl.Type.Params.NumFields() != 1 || len(fl.Type.Params.List[0].Names) != 1 {
+								return true
+							}
+							pd := newDT(info)
+							ps := &dtPath{env: map[types.Object]string{info.Defs[fl.Type.Params.List[0].Names[0]]: "PKG"}}
+							pd.paths = nil
+							pd.stmts(ps, fl.Body.List, func(p *dtPath) { pd.finish(p, "end") })
+							deletesEmpty := len(pd.paths) > 0
+							for _, p := range pd.paths {
+								emptyOK := true
+								for _, a := range p.Atoms {
+									if v, ok := lenAtom(a.Expr, "builtin.len(PKG.GoFiles)", 0); ok && v != a.Val {
+										emptyOK = false
+									}
+								}
+								if !emptyOK {
+									continue
+								}
+								ret := ""
+								if p.Exit == "return" && len(p.Ret) == 1 {
+									ret = p.Ret[0]
+								}
+								if v, ok := lenAtom(ret, "builtin.len(PKG.GoFiles)", 0); !(ret == "true" || ok && v) {
+									deletesEmpty = false
+								}
+							}
+							if deletesEmpty {
+								okDrop = true
+							}
+							return true
+						})
+					}
+				}
+			}
 		}
 		c.Check(okDrop, rule, "subPackages|no-go-files", r.Pos(fd.Pos()), "packages without Go files are dropped", why)
 	}
@@ -837,17 +918,77 @@ func checkRecursiveOrder(c *Ctx, r *Repo, cp *packages.Package, fd *ast.FuncDecl
 		return true
 	})
 	var sortCall *ast.CallExpr
+	isSort := func(call *ast.CallExpr) bool {
+		switch calleeName(info, call) {
+		case "sort.Slice", "sort.SliceStable", "slices.SortFunc", "slices.SortStableFunc", "sort.Strings", "slices.Sort":
+			return len(call.Args) >= 1
+		}
+		return false
+	}
 	if list != nil {
 		ast.Inspect(fd.Body, func(n ast.Node) bool {
-			if call, ok := n.(*ast.CallExpr); ok && len(call.Args) >= 1 {
-				switch calleeName(info, call) {
-				case "sort.Slice", "sort.SliceStable", "slices.SortFunc", "slices.SortStableFunc", "sort.Strings", "slices.Sort":
-					if id, ok := ast.Unparen(call.Args[0]).(*ast.Ident); ok && info.Uses[id] == list {
-						sortCall = call
-						sortPos = call.Pos()
-					}
-				}
+			call, ok := n.(*ast.CallExpr)
+			if !ok || len(call.Args) < 1 {
+				return true
 			}
+			if isSort(call) {
+				if id, ok := ast.Unparen(call.Args[0]).(*ast.Ident); ok && info.Uses[id] == list {
+					sortCall = call
+					sortPos = call.Pos()
+				}
+				return true
+			}
+			// the sort may sit in a helper that is handed the list: either it sorts its parameter in place, or it
+			// sorts a copy, returns it, and the caller stores the result back into the list
+			fn := calleeFunc(info, call)
+			h := funcs[fn]
+			if fn == nil || h == nil || h.Body == nil || len(call.Args) != 1 || h.Type.Params.NumFields() != 1 || len(h.Type.Params.List[0].Names) != 1 {
+				return true
+			}
+			if id, ok := ast.Unparen(call.Args[0]).(*ast.Ident); !ok || info.Uses[id] != list {
+				return true
+			}
+			param := info.Defs[h.Type.Params.List[0].Names[0]]
+			hc := newFuncCanon(info, h)
+			ast.Inspect(h.Body, func(m ast.Node) bool {
+				sc, ok := m.(*ast.CallExpr)
+				if !ok || !isSort(sc) {
+					return true
+				}
+				sid, ok := ast.Unparen(sc.Args[0]).(*ast.Ident)
+				if !ok {
+					return true
+				}
+				sorted := info.Uses[sid]
+				inPlace := sorted == param
+				returned := false
+				if !inPlace {
+					def := hc.Obj(sorted)
+					isCopy := def == "slices.Clone(ARG0)" || strings.HasPrefix(def, "builtin.append(") && strings.HasSuffix(def, ", ARG0...)")
+					retOK := false
+					ast.Inspect(h.Body, func(k ast.Node) bool {
+						if rs, ok := k.(*ast.ReturnStmt); ok && len(rs.Results) == 1 && isObj(info, rs.Results[0], sorted) {
+							retOK = true
+						}
+						return true
+					})
+					// the caller stores the result back: list = h(list)
+					stored := false
+					ast.Inspect(fd.Body, func(k ast.Node) bool {
+						if as, ok := k.(*ast.AssignStmt); ok && len(as.Lhs) == 1 && len(as.Rhs) == 1 && ast.Unparen(as.Rhs[0]) == ast.Expr(call) && isObj(info, as.Lhs[0], list) {
+							stored = true
+						}
+						return true
+					})
+					returned = isCopy && retOK && stored
+				}
+				if inPlace || returned {
+					sortCall = sc
+					sortPos = call.Pos()
+					list = sorted // the comparator is read in the helper's terms
+				}
+				return true
+			})
 			return true
 		})
 	}
@@ -861,10 +1002,6 @@ func checkRecursiveOrder(c *Ctx, r *Repo, cp *packages.Package, fd *ast.FuncDecl
 		return
 	}
 	byIndex := n == "sort.Slice" || n == "sort.SliceStable"
-	if !byIndex {
-		c.Fail(rule, key, r.Pos(sortPos), "cannot analyse the three-way comparator of "+n)
-		return
-	}
 	fl, ok := sortCall.Args[1].(*ast.FuncLit)
 	if !ok || fl.Type.Params.NumFields() != 2 {
 		c.Fail(rule, key, r.Pos(sortPos), "cannot analyse the comparator of the recursive-package sort")
@@ -876,7 +1013,11 @@ func checkRecursiveOrder(c *Ctx, r *Repo, cp *packages.Package, fd *ast.FuncDecl
 	i := 0
 	for _, f := range fl.Type.Params.List {
 		for _, n := range f.Names {
-			start.env[info.Defs[n]] = []string{"I", "J"}[i]
+			if byIndex {
+				start.env[info.Defs[n]] = []string{"I", "J"}[i]
+			} else {
+				start.env[info.Defs[n]] = []string{"A", "B"}[i] // three-way comparators receive the elements
+			}
 			i++
 		}
 	}
@@ -888,6 +1029,47 @@ func checkRecursiveOrder(c *Ctx, r *Repo, cp *packages.Package, fd *ast.FuncDecl
 		})
 	}
 	const li, lj = "builtin.len(A)", "builtin.len(B)"
+	if !byIndex {
+		// three-way comparator (negative: a first). For each ordering of the two lengths the sign of what the
+		// consistent paths return must be: longer first, and for equal lengths a total order on the strings.
+		okAll := len(d.paths) > 0
+		why := ""
+		for _, o := range []int{-1, 0, 1} { // sign of len(A) - len(B)
+			seen := false
+			for _, p := range d.paths {
+				if p.Exit != "return" || len(p.Ret) != 1 {
+					okAll, why = false, "a path of the comparator does not return a value"
+					continue
+				}
+				cons := true
+				for _, a := range p.Atoms {
+					if v, known := lenOrderAtom(a.Expr, li, lj, o); known && v != a.Val {
+						cons = false
+					} else if !known {
+						okAll, why = false, "the comparator branches on "+a.Expr
+					}
+				}
+				if !cons {
+					continue
+				}
+				seen = true
+				sg, total, known := threeWaySign(p.Ret[0], li, lj, o)
+				switch {
+				case !known:
+					okAll, why = false, "cannot determine the sign of "+p.Ret[0]
+				case o > 0 && !(sg < 0 && !total), o < 0 && !(sg > 0 && !total):
+					okAll, why = false, fmt.Sprintf("for paths of different length the comparator returns %s, which does not put the longer (deeper) path first", p.Ret[0])
+				case o == 0 && !total:
+					okAll, why = false, fmt.Sprintf("for paths of equal length the comparator returns %s, not a total order on the paths", p.Ret[0])
+				}
+			}
+			if !seen {
+				okAll, why = false, "no path of the comparator covers one ordering of the lengths"
+			}
+		}
+		c.Check(okAll, rule, key, r.Pos(sortPos), "recursive packages sorted longest path first with a total tie-break before expansion", "the comparator of the recursive-package sort is not 'longer path first, then a total tie-break' ("+why+"): expansion order (and with it which ancestor a sub-package inherits from) is not the nearest-ancestor-first order")
+		return
+	}
 	okLen, okTie := false, false
 	for _, p := range d.paths {
 		if p.Exit != "return" || len(p.Ret) != 1 {
@@ -925,4 +1107,109 @@ func subPackagesDecl(cp *packages.Package) *ast.FuncDecl {
 		return fd
 	}
 	return FuncDecl(cp, "subPackages")
+}
+
+// lenOrderAtom evaluates a comparison of the two length terms under the ordering o = sign(len(A) - len(B)).
+func lenOrderAtom(a, li, lj string, o int) (val, known bool) {
+	for _, op := range []string{" <= ", " >= ", " == ", " < ", " > "} {
+		i := strings.Index(a, op)
+		if i < 0 {
+			continue
+		}
+		x, y := a[:i], a[i+len(op):]
+		s := 0
+		switch {
+		case x == li && y == lj:
+			s = o
+		case x == lj && y == li:
+			s = -o
+		default:
+			return false, false
+		}
+		switch op {
+		case " <= ":
+			return s <= 0, true
+		case " >= ":
+			return s >= 0, true
+		case " == ":
+			return s == 0, true
+		case " < ":
+			return s < 0, true
+		default:
+			return s > 0, true
+		}
+	}
+	return false, false
+}
+
+// threeWaySign: the sign of a three-way comparator's result under the ordering o of the lengths; total is set
+// when the value is a total order on the two strings themselves (non-zero unless they are equal).
+func threeWaySign(e, li, lj string, o int) (sign int, total, known bool) {
+	e = strings.TrimSpace(e)
+	if strings.HasPrefix(e, "-") && !strings.Contains(e, " - ") {
+		s, t, k := threeWaySign(e[1:], li, lj, o)
+		return -s, t, k
+	}
+	if v, err := strconv.Atoi(e); err == nil {
+		switch {
+		case v < 0:
+			return -1, false, true
+		case v > 0:
+			return 1, false, true
+		}
+		return 0, false, true
+	}
+	args := func(prefix string) ([]string, bool) {
+		if !strings.HasPrefix(e, prefix+"(") || !strings.HasSuffix(e, ")") {
+			return nil, false
+		}
+		var out []string
+		depth, start := 0, len(prefix)+1
+		for i := start; i < len(e)-1; i++ {
+			switch e[i] {
+			case '(', '[', '{':
+				depth++
+			case ')', ']', '}':
+				depth--
+			case ',':
+				if depth == 0 {
+					out = append(out, strings.TrimSpace(e[start:i]))
+					start = i + 1
+				}
+			}
+		}
+		return append(out, strings.TrimSpace(e[start:len(e)-1])), true
+	}
+	pair := func(x, y string) (int, bool, bool) {
+		switch {
+		case x == li && y == lj:
+			return o, false, true
+		case x == lj && y == li:
+			return -o, false, true
+		case x == "A" && y == "B", x == "B" && y == "A":
+			return 0, true, true
+		}
+		return 0, false, false
+	}
+	for _, cmpFn := range []string{"cmp.Compare", "strings.Compare"} {
+		if a, ok := args(cmpFn); ok && len(a) == 2 {
+			return pair(a[0], a[1])
+		}
+	}
+	if a, ok := args("cmp.Or"); ok {
+		for _, x := range a {
+			s, t, k := threeWaySign(x, li, lj, o)
+			if !k {
+				return 0, false, false
+			}
+			if s != 0 || t {
+				return s, t, true
+			}
+		}
+		return 0, false, true
+	}
+	if i := strings.Index(e, " - "); i > 0 {
+		return pair(e[:i], e[i+3:])
+	}
+	return 0, false, false
 }
